@@ -120,4 +120,4 @@ def run_case(c):
 
 if __name__ == "__main__":
     import implutil
-    implutil.run_cases(run_case, per_case_s=3)
+    implutil.run_cases(run_case, per_case_s=30)     # the long-scan cases take about a second idle
